@@ -662,32 +662,41 @@ pub proof fn lemma_restamped_prefix(old: World, a: World, b: World, mb: Seq<Cach
             ('C05 C18:error-is-a-real-fault', 'r.is_err() ==> final(w).hard_faults > old(w).hard_faults'),
         ])
     au.body_start('broadcast use group_asref;\n    let ghost dir = pbv(parent);\n    let ghost ev = update.to_evict@;\n    let ghost mb = update.to_move_back@;')
-    au.insert_after('for entry in', ' it1:', nth=0)
+    # T3 (Rust Reference definition of `for`): both loops are desugared so that a `continue` inside them stays
+    # within Verus' reach; the iterator is the Vec's own IntoIter, specified by vstd's prophetic iterator laws.
+    au.desugar_for(0, itvar='kw_it1', into_iter=True,
+                   after_init='let ghost mut k1: int = 0;', after_next='proof { k1 = k1 + 1; } ')
     au.loop_contract(0, invariant=[
-        ('', 'old(w).inv() && w.inv() && w.kept(*old(w)) && pbv(cached) == dir && it1.seq() == ev && w.cache_dirs.contains(dir) && ev == update.to_evict@ && mb == update.to_move_back@'),
+        ('', 'old(w).inv() && w.inv() && w.kept(*old(w)) && pbv(cached) == dir && w.cache_dirs.contains(dir) && ev == update.to_evict@ && mb == update.to_move_back@'),
+        ('', '0 <= k1 <= ev.len() && vstd::std_specs::iter::IteratorSpec::remaining(&kw_it1) == ev.skip(k1) && vstd::std_specs::iter::IteratorSpec::obeys_prophetic_iter_laws(&kw_it1)'),
         ('', '(forall|n: Seq<u8>| !w.under_ro(#[trigger] child(dir, n))) && evictable_records(ev, dir) && evictable_records(mb, dir)'),
         ('C07 C17 C02:maintenance-frame-on-every-exit', 'maint_frame(*old(w), *w, ev, mb) && w.inodes == old(w).inodes && w.now == old(w).now'),
-        ('C07:victims-so-far-are-gone', 'w.hard_faults == old(w).hard_faults ==> forall|i: int| 0 <= i < it1.index() ==> !w.files.contains_key(rpath(#[trigger] ev[i]))'),
-        ('C06:linear-number-of-filesystem-calls', 'w.steps <= old(w).steps + it1.index() && w.opens == old(w).opens && w.published == old(w).published && w.listed == old(w).listed'),
-    ])
+        ('C07:victims-so-far-are-gone', 'w.hard_faults == old(w).hard_faults ==> forall|i: int| 0 <= i < k1 ==> !w.files.contains_key(rpath(#[trigger] ev[i]))'),
+        ('C06:linear-number-of-filesystem-calls', 'w.steps <= old(w).steps + k1 && w.opens == old(w).opens && w.published == old(w).published && w.listed == old(w).listed'),
+    ], ensures=[('', 'k1 == ev.len()')], decreases='ev.len() - k1')
     au.insert_before('cached . push', 'broadcast use group_asref;\n        proof { lemma_child(dir, entry.entry.name()); }\n        ', nth=0)
     au.insert_before('cached . push', 'broadcast use group_asref;\n        proof { lemma_child(dir, entry.entry.name()); }\n        ', nth=1)
-    au.insert_before('ensure_file_removed ( & cached ) ? ;', 'let ghost wa = *w;\n        ', nth=0)
-    au.insert_after('ensure_file_removed ( & cached ) ? ;',
-                    '\n        proof { assert(rpath(ev[it1.index() as int]) == pbv(cached)); lemma_frame_unlink(*old(w), wa, *w, ev, mb, it1.index() as int); }', nth=0)
-    au.insert_after('for entry in', ' it2:', nth=1)
+    au.insert_before('ensure_file_removed ( & cached ) ? ;',
+                     'let ghost wa = *w;\n        proof {\n'
+                     '            assert(rpath(ev[k1 - 1]) == pbv(cached));\n'
+                     '            assert forall|fin: World| (#[trigger] fin.same_fs(wa) || (fin.files == wa.files.remove(pbv(cached)) && fin.dirs == wa.dirs && fin.inodes == wa.inodes)) && fin.kept(wa) '
+                     'implies maint_frame(*old(w), fin, ev, mb) by {\n'
+                     '                if fin.same_fs(wa) { lemma_frame_same_fs(*old(w), wa, fin, ev, mb); } else { lemma_frame_unlink(*old(w), wa, fin, ev, mb, k1 - 1); }\n'
+                     '            }\n        }\n        ', nth=0)
     au.insert_before('for entry in update . to_move_back', 'let ghost w1 = *w;\n    ')
+    au.desugar_for(1, itvar='kw_it2', into_iter=True,
+                   after_init='let ghost mut k2: int = 0;', after_next='proof { k2 = k2 + 1; } ')
     au.loop_contract(1, invariant=[
-        ('', 'old(w).inv() && w.inv() && w.kept(*old(w)) && pbv(cached) == dir && it2.seq() == mb && w.cache_dirs.contains(dir) && ev == update.to_evict@ && mb == update.to_move_back@'),
+        ('', 'old(w).inv() && w.inv() && w.kept(*old(w)) && pbv(cached) == dir && w.cache_dirs.contains(dir) && ev == update.to_evict@ && mb == update.to_move_back@'),
+        ('', '0 <= k2 <= mb.len() && vstd::std_specs::iter::IteratorSpec::remaining(&kw_it2) == mb.skip(k2) && vstd::std_specs::iter::IteratorSpec::obeys_prophetic_iter_laws(&kw_it2)'),
         ('', '(forall|n: Seq<u8>| !w.under_ro(#[trigger] child(dir, n))) && evictable_records(ev, dir) && evictable_records(mb, dir)'),
         ('C07 C17 C02:maintenance-frame-on-every-exit', 'maint_frame(*old(w), *w, ev, mb) && w.files == w1.files'),
         ('C07:victims-so-far-are-gone', 'w.hard_faults == old(w).hard_faults ==> forall|i: int| 0 <= i < ev.len() ==> !w.files.contains_key(rpath(#[trigger] ev[i]))'),
-        ('C07 C09:reprieved-so-far-are-restamped',
-         'w.hard_faults == old(w).hard_faults ==> prefix_restamped(*old(w), *w, mb, it2.index() as int)'),
-        ('C06:linear-number-of-filesystem-calls', 'w.steps <= old(w).steps + ev.len() + it2.index() && w.opens == old(w).opens && w.published == old(w).published && w.listed == old(w).listed'),
-    ])
+        ('C07 C09:reprieved-so-far-are-restamped', 'w.hard_faults == old(w).hard_faults ==> prefix_restamped(*old(w), *w, mb, k2)'),
+        ('C06:linear-number-of-filesystem-calls', 'w.steps <= old(w).steps + ev.len() + k2 && w.opens == old(w).opens && w.published == old(w).published && w.listed == old(w).listed'),
+    ], ensures=[('', 'k2 == mb.len()')], decreases='mb.len() - k2')
     au.insert_before('match move_to_back_of_list',
-                     'let ghost wb = *w;\n        let ghost idx = it2.index() as int;\n'
+                     'let ghost wb = *w;\n        let ghost idx = k2 - 1;\n'
                      '        proof {\n'
                      '            let p = rpath(mb[idx]);\n'
                      '            assert(p == pbv(cached));\n'
